@@ -80,3 +80,248 @@ async def main():
 bad = asyncio.run(main())
 VIOLATED = bool(bad); DETAIL = "; ".join(bad)
 '''
+
+
+# ------------------------------------------------------------------ AIOKafkaClient._md_synchronizer
+# C06 "the members' assignments together cover every partition of every subscribed topic": the leader computes the assignment
+# from the metadata of the topics the group follows; set_topics() asks for them and _maybe_wait_metadata() waits for the
+# update future. The synchronizer may resolve that future only with metadata that was fetched for the topic set that is
+# current when it resolves it - if the set changed while the request was on the wire (in whatever way: grown, shrunk,
+# replaced), it fetches again first.
+# Modelling assumption (listed in the evidence): the set of followed topics is an object that set_topics() *replaces* (it
+# rebinds the attribute; the group coordinator only uses set_topics()); the code's `topics = self._topics` keeps the object
+# that was current when the request was built and `topics != self._topics` is read as "it has been replaced since". An
+# in-place add_topic() on that object during the fetch is invisible to the code's own comparison, and to this model.
+CLASSES["KafkaClient"].fields.update({"_topics": Ref("TopicSetObj"), "_metadata_max_age_ms": INT, "cluster": Ref("ClusterObj2")})
+classmodel("ClusterObj2", {})
+classmodel("TopicSetObj", {})
+
+
+@contract(MOD + ":AIOKafkaClient._md_synchronizer", ["C06"])
+def _(c):
+    c.self_("KafkaClient")
+    c.no_class_inv = True
+    c.none_raises = True
+    c.local("topics", Ref("TopicSetObj"))
+    c.local("ret", BOOL)
+    c.owns("self._md_update_fut", "self._md_update_waiter", "self.cluster", "self._metadata_max_age_ms")
+    c.call("asyncio.wait", returns=Tup(Set(Fut(NONE)), Set(Fut(NONE))), havoc_all=True, raises=["CancelledError"],
+           note="asyncio.wait([waiter], timeout=max age): suspends until an update is asked for or the metadata is old")
+    c.call("create_future", returns=Fut(NONE), post=["fresh(result)", "not result.done()"], note="a new pending future")
+    c.call("self._metadata_update", returns=BOOL, havoc_all=True, raises=["CancelledError", "Exception"],
+           note="AIOKafkaClient._metadata_update(cluster, topics): one Metadata round trip for the topics given; suspends")
+    c.modifies("self._md_update_fut", "self._md_update_waiter", "Future.state", "Future.nres", "Future.res")
+    c.raises("cancelled-or-the-update-failed-unexpectedly", "BaseException")
+    c.loop(0, header="while True", invariants=[])
+    c.hook("before", "self._md_update_fut.set_result", [
+        ("assert", "an-update-is-announced-only-when-it-was-fetched-for-the-topics-followed-now", "topics == self._topics"),
+        ("assert", "with-the-outcome-of-that-fetch", "a0 == ret"),
+    ])
+    c.replay_fn = lambda model, ob=None: {"script": _SYNC_SCRIPT}
+
+
+# replay: a real AIOKafkaClient whose _metadata_update is a stub that records the topics it is asked for and waits for a gate;
+# the followed topics change while the first request is on the wire; the update future may resolve only after a fetch for the
+# topics followed then
+_SYNC_SCRIPT = '''
+import asyncio, logging
+logging.disable(logging.CRITICAL)
+from aiokafka.client import AIOKafkaClient
+async def scenario(before, after):
+    client = AIOKafkaClient(bootstrap_servers=[])
+    asked, gates = [], []
+    async def metadata_update(cluster, topics):
+        asked.append(set(topics))
+        g = asyncio.Event(); gates.append(g)
+        await g.wait()
+        return True
+    client._metadata_update = metadata_update
+    client._topics = set(before)
+    sync = asyncio.ensure_future(client._md_synchronizer())
+    fut = client.force_metadata_update()
+    await asyncio.sleep(0.01)                       # the first request is on the wire
+    client.set_topics(after)                        # e.g. the group's subscription changed
+    fut2 = client.force_metadata_update()
+    gates[0].set()
+    await asyncio.sleep(0.01)
+    problem = None
+    if fut2.done() and set(after) not in asked:
+        problem = "followed topics %r -> %r while a metadata request was on the wire: the update was announced with metadata fetched for %r only" % (sorted(before), sorted(after), [sorted(a) for a in asked])
+    for g in gates: g.set()
+    sync.cancel()
+    try: await sync
+    except BaseException: pass
+    return problem
+async def main():
+    bad = []
+    for before, after in ((["tA"], ["tB"]), (["tA", "tB"], ["tA", "tC"]), (["tA"], ["tA", "tB"]), (["tA", "tB"], ["tA"])):
+        r = await scenario(before, after)
+        if r: bad.append(r)
+    return bad
+bad = asyncio.run(main())
+VIOLATED = bool(bad)
+DETAIL = "%r" % (bad[:2],) if bad else "ok"
+'''
+
+
+# ------------------------------------------------------------------ AIOKafkaClient._get_conn
+# C02 "With idempotence enabled, retriable faults alone never fail an accepted record" / C01: an unreachable broker is a
+# retriable fault. Whatever way a connect attempt fails - refused, reset, no route to the host, name resolution, time-out, a
+# Kafka-level failure of the handshake - _get_conn answers None (client.send turns that into the retriable NodeNotReadyError)
+# and asks for fresh metadata; no raw OSError may escape into the sender or the metadata synchronizer, which would die of it.
+CONNS = Dict(Tup(INT, INT), Ref("ConnObj2"))
+CLASSES["KafkaClient"].fields.update({"_conns": CONNS, "_get_conn_lock": Ref("LockObj2"), "_client_id": STR, "_request_timeout_ms": INT})
+for _f in ("_ssl_context", "_security_protocol", "_connections_max_idle_ms", "_sasl_mechanism", "_sasl_plain_username",
+           "_sasl_plain_password", "_sasl_kerberos_service_name", "_sasl_kerberos_domain_name", "_sasl_oauth_token_provider",
+           "_on_connection_closed"):
+    CLASSES["KafkaClient"].fields.setdefault(_f, Opaque("Setting"))
+classmodel("ConnObj2", {})
+classmodel("LockObj2", {})
+classmodel("BrokerObj2", {"host": STR, "port": INT})
+
+
+@contract(MOD + ":AIOKafkaClient._get_conn", ["C02", "C01", "C19"])
+def _(c):
+    c.self_("KafkaClient")
+    c.no_class_inv = True
+    c.param("node_id", INT)
+    c.param("group", INT, default="0")
+    c.param("no_hint", BOOL, default="False")
+    c.returns(Opt(Ref("ConnObj2")))
+    c.local("conn", Ref("ConnObj2"))
+    c.local("broker", Opt(Ref("BrokerObj2")))
+    c.owns("self._conns", "self.cluster", "self._get_conn_lock")
+    c.lock("self._get_conn_lock")
+    c.call("conn.connected", returns=BOOL, note="whether the cached connection is still open")
+    c.call("self.cluster.broker_metadata", returns=Opt(Ref("BrokerObj2")), note="host and port of the node, if the metadata knows it")
+    c.call("StaleMetadata", returns=EXC, note="exception constructor")
+    c.call("create_conn", returns=Ref("ConnObj2"), havoc_all=True, post=["fresh(result)"],
+           raises=["OSError", "TimeoutError", "KafkaError", "CancelledError"],
+           note="aiokafka.conn.create_conn: connects and performs the handshake; fails with any OSError (refused, reset, no route, "
+                "name resolution, 'Multiple exceptions'), a time-out or a KafkaError")
+    c.call("self.force_metadata_update", returns=Fut(BOOL), modifies=["KafkaClient._md_update_fut", "Future.state", "Future.nres"],
+           note="force_metadata_update (under contract): asks the synchronizer for fresh metadata")
+    c.modifies("self._conns", "KafkaClient._md_update_fut", "Future.state", "Future.nres")
+    c.raises("cancelled", "CancelledError")
+    c.ghost("$asked_for_metadata", BOOL, "False")
+    c.hook("before", "self.force_metadata_update", [("set", "$asked_for_metadata", "True")])
+    c.ensures_internal("a-failed-connect-asks-for-fresh-metadata", "implies(result is None, $asked_for_metadata)")
+    c.replay_fn = lambda model, ob=None: {"script": _GET_CONN_SCRIPT}
+
+
+_GET_CONN_SCRIPT = '''
+import asyncio, errno, logging, socket
+logging.disable(logging.CRITICAL)
+from unittest import mock
+from aiokafka import client as C
+from aiokafka.errors import KafkaConnectionError
+async def main():
+    bad = []
+    faults = [ConnectionRefusedError(errno.ECONNREFUSED, "refused"), ConnectionResetError(errno.ECONNRESET, "reset"),
+              OSError(errno.EHOSTUNREACH, "No route to host"), OSError(errno.ENETUNREACH, "Network is unreachable"),
+              socket.gaierror(socket.EAI_NONAME, "Name or service not known"), OSError("Multiple exceptions: [Errno 111] ..., [Errno 99] ..."),
+              asyncio.TimeoutError(), KafkaConnectionError("handshake failed")]
+    for fault in faults:
+        cl = C.AIOKafkaClient(bootstrap_servers=[])
+        cl.cluster.broker_metadata = lambda node_id: mock.MagicMock(host="h", port=1)
+        async def create_conn(*a, fault=fault, **k):
+            raise fault
+        with mock.patch.object(C, "create_conn", create_conn):
+            try:
+                r = await cl._get_conn(0)
+                if r is not None:
+                    bad.append("%r: a connection object came back" % (fault,))
+            except Exception as e:
+                bad.append("connect attempt failing with %s(%s): %s escaped _get_conn (the sender / the metadata task dies of it)"
+                           % (type(fault).__name__, fault, type(e).__name__))
+    return bad
+bad = asyncio.run(main())
+VIOLATED = bool(bad)
+DETAIL = "%r" % (bad[:3],) if bad else "ok"
+'''
+
+
+# ------------------------------------------------------------------ AIOKafkaClient.send
+# C12 "for any ... mix of concurrent, timed-out and cancelled requests, each request's waiter receives the response carrying
+# its correlation id": a connection is shared by every request to that node; the client layer may close it under the other
+# waiters' feet only for the reason the connection layer cannot see itself - this request's reply did not arrive in time. A
+# request that is merely *cancelled* leaves the connection alone (its reply is read and dropped by the connection: conn.py).
+classmodel("ReqBuilder2", {"required_acks": INT})
+classmodel("RespObj2", {})
+CLASSES["ConnObj2"].fields["g_closed_by_client"] = BOOL
+
+
+@contract(MOD + ":AIOKafkaClient.send", ["C12"])
+def _(c):
+    c.self_("KafkaClient")
+    c.no_class_inv = True
+    c.param("node_id", INT)
+    c.param("request", Ref("ReqBuilder2"))
+    c.param("group", INT, default="0")
+    c.returns(Ref("RespObj2"))
+    c.local("future", Fut(Ref("RespObj2")))
+    c.local("expect_response", BOOL)
+    c.owns("self._conns")
+    c.index_raises = True
+    c.call("self.ready", returns=BOOL, havoc_all=True, raises=["CancelledError"], note="AIOKafkaClient.ready -> _get_conn (under contract): suspends")
+    c.call("NodeNotReadyError", returns=EXC, note="exception constructor")
+    c.call("RequestTimedOutError", returns=EXC, note="exception constructor")
+    c.call("isinstance", returns=BOOL, note="whether the request is a Produce request")
+    c.call("*.send", returns=Fut(Ref("RespObj2")), post=["fresh(result)"],
+           note="AIOKafkaConnection.send (under contract, conn_send.py): queues the waiter, returns the awaitable of the reply "
+                "(bounded by the request timeout)")
+    c.call("*.close", modifies=["ConnObj2.g_closed_by_client"], note="AIOKafkaConnection.close (under contract): fails every waiter of the connection")
+    c.modifies("ConnObj2.g_closed_by_client", "Future.state", "Future.nres", "Future.res", "Future.exc")
+    c.raises("not-ready-timed-out-connection-error-or-cancelled", "BaseException")
+    c.hook("before", "*.close", [
+        ("assert", "the-shared-connection-is-closed-by-the-client-only-when-this-requests-reply-timed-out", "is_exc(exc, 'TimeoutError')"),
+    ])
+    c.replay_fn = lambda model, ob=None: {"script": _CLIENT_SEND_SCRIPT}
+
+
+# replay: a real client over a fake connection object: three requests outstanding on one connection, one of them cancelled or
+# timing out; the connection may be closed by the client only in the second case
+_CLIENT_SEND_SCRIPT = '''
+import asyncio, logging
+logging.disable(logging.CRITICAL)
+from aiokafka.client import AIOKafkaClient
+from aiokafka.protocol.metadata import MetadataRequest
+class FakeConn:
+    def __init__(self): self.closed = []; self.futs = []
+    def connected(self): return True
+    def send(self, request, expect_response=True):
+        f = asyncio.get_running_loop().create_future(); self.futs.append(f); return f
+    def close(self, reason=None, exc=None): self.closed.append(reason)
+async def scenario(what, position):
+    cl = AIOKafkaClient(bootstrap_servers=[])
+    conn = FakeConn()
+    cl._conns[(0, 0)] = conn
+    from aiokafka.client import ConnectionGroup
+    cl._conns[(0, ConnectionGroup.DEFAULT)] = conn
+    tasks = [asyncio.ensure_future(cl.send(0, MetadataRequest([]))) for _ in range(3)]
+    await asyncio.sleep(0.01)
+    if what == "cancelled":
+        tasks[position].cancel()
+    else:
+        conn.futs[position].set_exception(asyncio.TimeoutError())
+    await asyncio.sleep(0.01)
+    closed = list(conn.closed)
+    for f in conn.futs:
+        if not f.done(): f.set_result("reply")
+    await asyncio.gather(*tasks, return_exceptions=True)
+    if what == "cancelled" and closed:
+        return "request %d of 3 on one connection cancelled: the client closed the connection (%r) under the two other waiters" % (position, closed)
+    if what == "timed-out" and not closed:
+        return "request %d timed out and the connection was not renewed" % position
+    return None
+async def main():
+    bad = []
+    for what in ("cancelled", "timed-out"):
+        for pos in (0, 1, 2):
+            r = await scenario(what, pos)
+            if r: bad.append(r)
+    return bad
+bad = asyncio.run(main())
+VIOLATED = bool(bad)
+DETAIL = "%r" % (bad[:2],) if bad else "ok"
+'''
